@@ -1,7 +1,7 @@
 H = "Hypothesis 6.168 strategies sharded over 16 seeded workers"
 CHECKS = {
  "C01": {
-  "technique": "Hypothesis-generated planted periodic structures (+ in-place edit histories); validity predicate per returned match against an independent brute-force image/Kabsch classifier",
+  "technique": "Hypothesis-generated planted periodic structures (+ in-place edit histories, priming searches, keyword / positional call forms, patterns carrying a cell); validity predicate per returned match against an independent brute-force image/Kabsch classifier",
   "text": "Thousands of generated structures per run (tight orthorhombic/tilted cells, all pattern and pose classes, boundary-straddling copies, decoys incl. mirror images, every hint form, seeded RNGs; a second part searches again after in-place edits of the same object). Every returned match is checked for length, range, distinctness, elements, being a non-clear-out rigid image under some choice of periodic images, returned positions = stored position + lattice vector, and the returned proper rotation fitting within atol component-wise. Random search: no absence proof.",
   "note": "grey zone between atol/16 (clear-in) and sqrt(3)*atol (clear-out) is not judged; numpy/scipy trusted",
  },
@@ -23,7 +23,7 @@ CHECKS = {
  "C05": {
   "technique": "Hypothesis-generated replacement cases; existential proper-Kabsch fit of search+replacement coordinates onto matched+inserted atoms modulo the lattice; metamorphic joint motion; far-replacement and replace-replicate-replace histories",
   "text": "Every block of inserted atoms must, with some replaced group and feasible ordering, be a proper rigid image of the pattern pair within a bound proportional to the match's own deviation; fractional coordinates in [0,1]; same result after moving both patterns jointly; replacement atoms several cell lengths away (wrap by more than one lattice vector); a second replacement on a replicated result of a first one (stale per-object state).",
-  "note": "first-order lever-arm amplification bound plus 2e-5 A absolute numerical slack (arccos conditioning in mofun's rotation construction)",
+  "note": "first-order lever-arm amplification bound plus a numerical floor of 2e-5 A + 5e-8 * size * lever ratio (arccos conditioning in mofun's rotation construction)",
  },
  "C06": {
   "technique": "Hypothesis-generated typed structures/patterns and replacement chains vs. a resolved-term reference model (term -> atom identities -> coefficient text), cross-checked through an independent LAMMPS reader; documented example 3",
@@ -31,7 +31,7 @@ CHECKS = {
   "note": "cases with grey/overlapping groups or several feasible orderings are skipped and counted; type-id numbering and term order not asserted",
  },
  "C07": {
-  "technique": "Hypothesis constructive-overlap generator (chains, zig-zags, stars) vs. a deletion-set model over the reference matcher's groups and feasible orderings",
+  "technique": "Hypothesis constructive-overlap generator (chains, zig-zags, stars; orthorhombic, sheared, tight and turned cells; look-alike priming calls; keyword / positional call forms) vs. a deletion-set model over the reference matcher's groups and feasible orderings",
   "text": "Raise iff every combination of feasible orderings removes an atom twice (and the flag is off), never for empty replacements or overlaps only in retained atoms; when a structure is returned the removed atoms are exactly one deletion set per match and surviving bonds still join the same atoms.",
   "note": "exception message not checked; for fractions < 1 only the implications that hold for every random choice are asserted",
  },
@@ -96,7 +96,7 @@ CHECKS = {
   "note": "parameter functions taken as given (C18); M counted before exclusion",
  },
  "C20": {
-  "technique": "Hypothesis-generated option combinations; differential CLI (in-process click runner) vs. the documented pipeline through the API with identical RNG seeds, byte-identical outputs; documented example commands",
+  "technique": "Hypothesis-generated option combinations (+ one- and two-atom structures); differential CLI (in-process click runner) vs. the documented pipeline through the API with identical RNG seeds, byte-identical outputs; documented example commands",
   "text": "Every option drawn with probability 1/2 and an observable non-default value (distorted copies for --atol and hints, k/M fractions, unequal --replicate, --mic forcing 2 replicas, distinct charges, --pp, --framework-element with ASE output) on lmpdat/CIF/CML inputs, CML/lmpdat/CIF patterns, lmpdat/CIF/xyz outputs.",
   "note": "the API pipeline model is a second reading of the documentation; --dumppath/--extract-uc not exercised",
  },
